@@ -711,6 +711,12 @@ func (c *runCtx) listRotated(h *ksrig.ModelHistory) (entries []ksrig.ModelListed
 		c.abort = true
 		return nil, false
 	}
+	if err != nil && c.s.cfg.redis && !c.s.cfg.v2 && os.IsNotExist(err) {
+		// RedisStorage cannot tell an empty directory from a missing one: the listing of a keystore that holds no key
+		// at all (nothing generated yet, or everything destroyed) fails with ErrNotExist. That is the empty listing.
+		c.count("list_rotated_not_exist_taken_as_empty_listing(v1 on Redis, no key stored)", 1)
+		return nil, true
+	}
 	if err != nil {
 		c.count("list_rotated_errors", 1)
 		c.logf("  list-rotated error: %v", err)
